@@ -9,6 +9,6 @@ import extract, facts
 
 p, _ = extract.extract(extract.DEFAULT + ["matrix-card"])
 d = json.load(open(p))
-out = {"functions": facts.signature_table(d), "adts": facts.adt_signature_table(d)}
+out = {"functions": facts.signature_table(d), "adts": facts.adt_signature_table(d), "adts_pub": facts.adt_signature_table(d, public=True)}
 json.dump(out, open(os.path.join(os.path.dirname(os.path.abspath(__file__)), "..", "analysis", "anchors.json"), "w"), indent=0, sort_keys=True)
-print(len(out["functions"]), "functions", len(out["adts"]), "private types")
+print(len(out["functions"]), "functions", len(out["adts"]), "private types", len(out["adts_pub"]), "public types")
